@@ -7,7 +7,8 @@ import re
 from typing import List, Iterator
 
 from wpull.pipeline.item import URLRecord
-from wpull.url import URLInfo, schemes_similar, is_subdir
+from wpull.url import URLInfo, schemes_similar, is_subdir, \
+    normalize_hostname
 
 
 class BaseURLFilter(object, metaclass=abc.ABCMeta):
@@ -106,11 +107,35 @@ class FollowFTPFilter(BaseURLFilter):
             return True
 
 
+def _normalize_host_names(names):
+    '''Return the host names of a list as URLs have them.
+
+    Host names are not case-sensitive, an international name is compared
+    in its ASCII form, and the root dot at the end makes no difference.
+    '''
+    if not names:
+        return names
+
+    normalized_names = []
+
+    for name in names:
+        name = name.strip()
+
+        try:
+            name = normalize_hostname(name)
+        except UnicodeError:
+            name = name.lower()
+
+        normalized_names.append(name.rstrip('.'))
+
+    return normalized_names
+
+
 class BackwardDomainFilter(BaseURLFilter):
     '''Return whether the hostname matches a list of hostname suffixes.'''
     def __init__(self, accepted=None, rejected=None):
-        self._accepted = accepted
-        self._rejected = rejected
+        self._accepted = _normalize_host_names(accepted)
+        self._rejected = _normalize_host_names(rejected)
 
     def test(self, url_info, url_table_record):
         test_domain = url_info.hostname
@@ -127,6 +152,8 @@ class BackwardDomainFilter(BaseURLFilter):
         if not test_domain:
             return False
 
+        test_domain = test_domain.rstrip('.')
+
         for domain in domain_list:
             if test_domain.endswith(domain):
                 return True
@@ -135,11 +162,11 @@ class BackwardDomainFilter(BaseURLFilter):
 class HostnameFilter(BaseURLFilter):
     '''Return whether the hostname matches exactly in a list.'''
     def __init__(self, accepted=None, rejected=None):
-        self._accepted = accepted
-        self._rejected = rejected
+        self._accepted = _normalize_host_names(accepted)
+        self._rejected = _normalize_host_names(rejected)
 
     def test(self, url_info, url_table_record):
-        test_domain = url_info.hostname
+        test_domain = (url_info.hostname or '').rstrip('.')
         if self._accepted and not test_domain in self._accepted:
             return False
 
